@@ -19,6 +19,11 @@ func C14Configs(p *spec.Program) []spec.Config {
 		"Leaf.Str":  {Type: "SimStrType", ValueType: "SimStrValue", CastToType: "string", CastFromType: "string"},
 		"Sink.Name": {Type: "SimStrType", ValueType: "SimStrValue", CastToType: "string", CastFromType: "string"},
 	}
+	// both key forms for one field: the full path must win over Message.Field whatever the map order
+	b.Validators = map[string][]string{"Sink.Name": {"UseSimValidator()"}, "Sink.Spec.Name": {"UsePathValidator()"}, "Mid.Name": {"UseTypeValidator()"},
+		"Sink.Status.Str": {"UsePathValidator()"}, "Leaf.Str": {"UseTypeValidator()", "UseSimValidator()"}}
+	b.PlanModifiers = map[string][]string{"Sink.Spec.Name": {"PathModifier()"}, "Mid.Name": {"TypeModifier()"}, "Leaf.Num": {"TypeModifier()"}, "Sink.Status.Num": {"PathModifier()"}}
+	b.NameOverrides = map[string]string{"Naming.Overridden": "renamed", "Leaf.Flag": "flag_x", "Sink.Status.Flag": "flag_by_path", "Sink.Spec.Name": "name_by_path", "Mid.Name": "name_by_type"}
 	b.CustomTypes = map[string]string{"Sink.Ratio": "CustomRatio", "Scalars.FBool": "CustomBool"}
 	b.Suffixes = map[string]string{"CustomRatio": "Ratio", "CustomBool": "BoolSpecial"}
 	return []spec.Config{a, b}
